@@ -48,12 +48,27 @@ MANIFEST_ENTRY = {
 SCHEMA_FIELDS = [{"id": 1, "name": "x", "type": "long", "required": False}]
 
 
-def make_template(scratch: str, nsnap: int) -> str:
+# table configurations (properties the commit path consults) as a dimension of the pre-state: name -> properties
+TABLE_CONFS = {
+    "": {},
+    "retention": {"datashard.snapshot.retention-count": "{n}"},                 # the table is AT its retention bound: the next commit prunes
+    "short-log": {"write.metadata.previous-versions-max": "1"},                 # the smallest legal metadata-log bound
+    "retention+short-log": {"datashard.snapshot.retention-count": "{n}", "write.metadata.previous-versions-max": "2"},
+}
+
+
+def make_template(scratch: str, nsnap: int, conf: str = "") -> str:
     import datashard
     from datashard.data_structures import Schema
-    path = os.path.join(scratch, f"c03-template-{nsnap}")
+    path = os.path.join(scratch, f"c03-template-{nsnap}" + (f"-{conf}" if conf else ""))
     if not os.path.exists(path):
         t = datashard.create_table(path, Schema(schema_id=1, fields=SCHEMA_FIELDS))
+        if conf:
+            # (there is no setter API: the library's own tests set properties through MetadataManager.commit as well)
+            new = t.metadata_manager.refresh()
+            for k, v in TABLE_CONFS[conf].items():
+                new.properties[k] = v.format(n=max(1, nsnap))
+            t.metadata_manager.commit(t.metadata_manager.refresh(), new)
         for i in range(nsnap):
             t.append_records([{"x": -(i + 1)}])
     return path
@@ -238,16 +253,22 @@ def run(ctx) -> None:
     ctx.allow_axioms([])
     quick = ctx.tier == "quick"
     plan = [("append", 2, ""), ("delete_snapshot", 2, ""), ("create", 0, ""), ("expire", 3, ""), ("delete_files", 2, ""), ("append+expire", 3, ""),
-            ("delete+append+expire", 2, ""), ("append", 1, "nl"), ("delete_snapshot", 2, "pad")] if quick else \
+            ("delete+append+expire", 2, ""), ("append", 1, "nl"), ("delete_snapshot", 2, "pad"),
+            ("append", 2, "conf:retention"), ("delete+append", 2, "conf:retention+short-log")] if quick else \
         [("create", 0, ""), ("append", 0, ""), ("append", 1, ""), ("append", 3, ""), ("delete_files", 2, ""), ("expire", 3, ""), ("delete_snapshot", 2, ""),
          ("delete_snapshot", 3, ""), ("collect", 2, ""),
          ("append+expire", 3, ""), ("delete+append", 2, ""), ("delete+append+expire", 3, ""), ("append+append", 1, ""),
          ("append", 2, "nl"), ("append", 1, "pad"), ("delete_files", 2, "crlf"), ("expire", 3, "nl"), ("delete_snapshot", 2, "pad"), ("collect", 2, "nl"),
-         ("delete+append+expire", 3, "crlf")]
+         ("delete+append+expire", 3, "crlf"),
+         ("append", 2, "conf:retention"), ("append", 3, "conf:short-log"), ("delete_files", 2, "conf:retention"), ("delete+append", 2, "conf:retention+short-log"),
+         ("append+expire", 3, "conf:retention"), ("delete_snapshot", 3, "conf:short-log"), ("collect", 2, "conf:retention")]
     bad = []
     total = 0
     for kind, nsnap, ptr_spelling in plan:
-        template = make_template(ctx.scratch, nsnap) if kind != "create" else None
+        tconf = ""
+        if ptr_spelling.startswith("conf:"):
+            tconf, ptr_spelling = ptr_spelling[5:], ""
+        template = make_template(ctx.scratch, nsnap, tconf) if kind != "create" else None
         root = os.path.join(ctx.scratch, "c03-run")
 
         def fresh() -> None:
@@ -267,13 +288,13 @@ def run(ctx) -> None:
             continue
         post_sig = sig(read_state(root))
         nsteps = len(full)
-        ctx.stats.setdefault("crash_points", {})[f"{kind}/{nsnap}" + (f"/pointer:{ptr_spelling}" if ptr_spelling else "")] = nsteps
+        ctx.stats.setdefault("crash_points", {})[f"{kind}/{nsnap}" + (f"/pointer:{ptr_spelling}" if ptr_spelling else "") + (f"/table:{tconf}" if tconf else "")] = nsteps
         flip_idx = next((e["i"] for e in full if e.get("step", "").startswith("os.replace:sb:metadata.version-hint")), None)
         ks = list(range(nsteps))
         if quick and len(ks) > 70:
             tail = ks[-55:]
             ks = sorted(set(ctx.rng.sample(ks[:-55], 15) + tail))
-        if quick and ptr_spelling:
+        if quick and (ptr_spelling or tconf):
             ks = ks[-30:]          # the commit-protocol end of the operation: where an unpublished version file can be left behind
         for k in ks:
             fresh()
@@ -288,12 +309,12 @@ def run(ctx) -> None:
                 adopt = create_adoption_check(root, trace)
                 if adopt:
                     ctx.violation("create-crash-adopts-unpointed-v0", adopt + f" [crash before step {k}: {before}]",
-                                  {"op": kind, "snapshots": nsnap, "k": k, "before": before, "pointer": ptr_spelling})
+                                  {"op": kind, "snapshots": nsnap, "k": k, "before": before, "pointer": ptr_spelling, "table_conf": tconf})
             why, reflected = judge(kind, root, pre, post_sig, pre_ptr)
             if why:
-                ctx.violation(f"crash:{kind}:{before.split(':')[0]}" + (f":pointer-{ptr_spelling}" if ptr_spelling else ""),
+                ctx.violation(f"crash:{kind}:{before.split(':')[0]}" + (f":pointer-{ptr_spelling}" if ptr_spelling else "") + (f":table-{tconf}" if tconf else ""),
                               f"{why} [crash before step {k}: {before}]" + (f" [pointer content before the operation: file name {PTR_SPELLINGS[ptr_spelling]!r}]" if ptr_spelling else ""),
-                              {"op": kind, "snapshots": nsnap, "k": k, "before": before, "pointer": ptr_spelling})
+                              {"op": kind, "snapshots": nsnap, "k": k, "before": before, "pointer": ptr_spelling, "table_conf": tconf})
             # model prediction (Props/C03.v C03_crash_atomic): reflected iff the flip step was reached before the crash
             if flip_idx is not None and kind != "collect":
                 predicted = k > flip_idx
@@ -302,7 +323,7 @@ def run(ctx) -> None:
         shutil.rmtree(root, ignore_errors=True)
     ctx.stats["crash_runs"] = total
     ctx.sample({"op": plan[0][0], "prior_snapshots": plan[0][1], "crash_points": ctx.stats["crash_points"]})
-    ctx.stats["pointer_spellings"] = {k or "as-written": sum(1 for p in plan if p[2] == k) for k in sorted({p[2] for p in plan})}
+    ctx.stats["pointer_spellings_and_table_configurations"] = {k or "as-written": sum(1 for p in plan if p[2] == k) for k in sorted({p[2] for p in plan})}
     ctx.correspondence("crash-points", total, bad)
 
 
@@ -312,7 +333,7 @@ def replay(ctx, payload) -> int:
         print("replay: no concrete case")
         return 2
     kind, nsnap, k = c["op"], c["snapshots"], c["k"]
-    template = make_template(ctx.scratch, nsnap) if kind != "create" else None
+    template = make_template(ctx.scratch, nsnap, c.get("table_conf", "")) if kind != "create" else None
     root = os.path.join(ctx.scratch, "c03-replay")
     if template:
         shutil.copytree(template, root)
